@@ -829,7 +829,7 @@ func c14errClass(err error) string {
 
 var c14ops = []string{"detect", "serialize", "native", "stringify", "dump", "hexstring", "resultfromneo"}
 
-const c14reps = 32 // repetitions of an op on a cyclic graph that contains a multi-entry map (Go map order is random)
+const c14reps = 8 // repetitions of an op on a cyclic graph that contains a multi-entry map (Go map order is random)
 
 type c14viol struct {
 	Key    string `json:"key"`
